@@ -4,7 +4,9 @@
 //   mtblsim replay FILE [-v]
 #include "common.h"
 #include "../sim/simsched.h"
+#include <signal.h>
 #include <sys/personality.h>
+#include <sys/time.h>
 #include <unistd.h>
 
 static const Engine *const engines[] = { &engine_table, &engine_merge, &engine_sorter, &engine_fileset,
@@ -32,6 +34,24 @@ extern "C" __attribute__((used, visibility("default"))) const char *__tsan_defau
 
 int g_verbose = 0;
 
+// watchdog on CPU time (immune to machine load): a run that spins is reported as HANG
+static void on_cpu_limit(int)
+{
+	static const char msg[] = "SCHED-VERDICT HANG run exceeded its CPU-time limit (library code is spinning)\n";
+	(void)!write(1, msg, sizeof msg - 1);
+	_exit(80);
+}
+static int cpu_limit(const Plan &p)
+{
+	for (auto &o : p.ops) if (o.name.compare(0, 5, "sweep") == 0) return 900;	// exhaustive sweeps are legitimately long
+	return 30;
+}
+static void watchdog(int seconds)
+{
+	struct itimerval it = { { 0, 0 }, { seconds, 0 } };
+	setitimer(ITIMER_PROF, &it, nullptr);
+}
+
 static const char *arg(int argc, char **argv, const char *name, const char *def)
 {
 	for (int i = 2; i + 1 < argc; i++) if (!strcmp(argv[i], name)) return argv[i + 1];
@@ -51,6 +71,7 @@ int main(int argc, char **argv)
 		}
 	}
 	setvbuf(stdout, nullptr, _IOLBF, 0);
+	signal(SIGPROF, on_cpu_limit);
 	if (!mfmt::selftest()) { fprintf(stderr, "INFRA-ERROR independent codec self-test failed\n"); return 2; }
 	std::string cmd = argv[1];
 	if (cmd == "replay") {
@@ -62,7 +83,9 @@ int main(int argc, char **argv)
 		if (!ok || !Plan::parse(text, p, &err)) { fprintf(stderr, "INFRA-ERROR cannot read plan %s: %s\n", argv[2], err.c_str()); return 2; }
 		const Engine *e = find_engine(p.engine);
 		if (!e) { fprintf(stderr, "INFRA-ERROR unknown engine %s\n", p.engine.c_str()); return 2; }
+		watchdog(cpu_limit(p));
 		RunResult r = e->exec(p);
+		watchdog(0);
 		printf("%s\n", r.line(p.run).c_str());
 		fflush(stdout);
 		scratch_remove();
@@ -90,7 +113,9 @@ int main(int argc, char **argv)
 		if (pending) write_file(pending, text);
 		// execute from the parsed text, never from the generator's in-memory state
 		Plan q; Plan::parse(text, q);
+		watchdog(cpu_limit(q));
 		RunResult r = e->exec(q);
+		watchdog(0);
 		printf("%s\n", r.line(i).c_str());
 		if (r.viol && violdir) {
 			char t[512]; snprintf(t, sizeof t, "%s/viol.%llu.plan", violdir, (unsigned long long)i);
